@@ -11,6 +11,7 @@ import time
 
 # property -> (harness modules, harness names)
 PROPS: dict[str, dict] = {
+    "C06": {"modules": ["vf.h_comms"], "harnesses": ["ack-messaging", "retry-budget-step", "frame-sequences"]},
     "C11": {"modules": ["vf.h_xform"], "harnesses": ["xform-copy-rename", "xform-dedup-fuse", "xform-split-expand"]},
     "C14": {"modules": ["vf.h_names"], "harnesses": ["fluent-names", "fluent-operands"]},
     "C13": {"modules": ["vf.h_fluent"], "harnesses": ["fluent-symreal"]},
@@ -24,7 +25,7 @@ PROPS: dict[str, dict] = {
     "C02": {"modules": ["vf.h_ctrl"], "harnesses": ["ctrl-C02"]},
     "C03": {"modules": ["vf.h_ctrl"], "harnesses": ["ctrl-C03"]},
     "C04": {"modules": ["vf.h_ctrl"], "harnesses": ["ctrl-C04"]},
-    "C17": {"modules": ["vf.h_wire"], "harnesses": ["shm-wire-smt"]},
+    "C17": {"modules": ["vf.h_wire", "vf.h_comms"], "harnesses": ["shm-wire-smt", "frame-sequences"]},
     "C08": {"modules": ["vf.h_shm"], "harnesses": ["shm-step"]},
     "C09": {"modules": ["vf.h_shm"], "harnesses": ["shm-step-bytes", "shm-evict-liveness"]},
 }
